@@ -25,6 +25,9 @@ func (f *Frame) execInstr(cur *blockCur, in ssa.Instruction) {
 	case *ssa.Store:
 		p := c.ptrOf(f.val(x.Addr))
 		f.nilCheck(cur, f.val(x.Addr), in)
+		if !f.isLocalRoot(p.Root) {
+			f.checkTypeInv(cur, f.val(x.Val), in, "value stored to foreign memory")
+		}
 		cur.st = f.storeVal(cur.st, p, f.val(x.Val))
 	case *ssa.FieldAddr:
 		base := f.val(x.X)
@@ -288,8 +291,22 @@ func (f *Frame) execUnOp(cur *blockCur, x *ssa.UnOp) {
 		p := c.ptrOf(v)
 		term := c.load(cur.st, p, x.Type())
 		res := f.named(x, term)
-		// loaded pointers to arrays etc. stay opaque; closures unknown
+		// user type invariants are assumed only for memory this function did not allocate
+		if f.isLocalRoot(p.Root) {
+			f.c.noUserInv = true
+		}
 		cur.assume(f.typeInv(res))
+		f.c.noUserInv = false
+		// loading a field of a foreign object: the enclosing object satisfies its type invariant
+		if !f.isLocalRoot(p.Root) && len(p.Path) > 0 {
+			if p.ArrElem != nil && p.Path[0].Index != "" && len(p.Path) > 1 && c.hasTypeInv(p.ArrElem) {
+				ep := &Ptr{Root: p.Root, Obj: p.Obj, ArrElem: p.ArrElem, Path: p.Path[:1]}
+				cur.assume(c.userTypeInv(Val{T: p.ArrElem, S: c.load(cur.st, ep, p.ArrElem)}))
+			} else if p.ArrElem == nil && c.hasTypeInv(p.Obj) {
+				op := &Ptr{Root: p.Root, Obj: p.Obj}
+				cur.assume(c.userTypeInv(Val{T: p.Obj, S: c.load(cur.st, op, p.Obj)}))
+			}
+		}
 	case token.NOT:
 		f.named(x, not(v.S))
 	case token.SUB:
@@ -621,6 +638,11 @@ func (f *Frame) execReturn(cur *blockCur, x *ssa.Return) {
 		vs = append(vs, f.val(r))
 	}
 	f.rets = append(f.rets, retPoint{reach: cur.reach, st: cur.st, vals: vs})
+	if f.callerFrame == nil {
+		for _, v := range vs {
+			f.checkTypeInv(cur, v, x, "returned value")
+		}
+	}
 	if f.callerFrame == nil && f.con != nil {
 		for _, cl := range f.con.Ensures {
 			t := f.evalClauseAt(cl, cur.b, cur.st, vs)
